@@ -242,8 +242,11 @@ def main(argv):
         'wall_s': round(ctx.elapsed(), 2),
         'violations': len(ctx.violations) + (1 if exit_code and not ctx.violations else 0),
     }
-    os.makedirs(common.EVIDENCE, exist_ok=True)
-    with open(os.path.join(common.EVIDENCE, '%s.json' % prop), 'w') as f:
+    # evidence/ only ever describes runs against /repo itself; runs against a patched scratch tree ($VERIF_REPO, used for
+    # calibration with seeded changes) write theirs under .scratch/ so that committed evidence is never overwritten
+    evdir = common.EVIDENCE if common.REPO == '/repo' else os.path.join(common.SCRATCH_ROOT, 'evidence-other-tree')
+    os.makedirs(evdir, exist_ok=True)
+    with open(os.path.join(evdir, '%s.json' % prop), 'w') as f:
         json.dump(evidence, f, indent=1, sort_keys=True, default=str)
 
     for l in out_lines:
